@@ -177,6 +177,18 @@ class FileSystemController:
                 f"not.enough.blocks:require.{requiredBlockLength}:got.{len(batBlocks)}"
             )
 
+        # prepare the catalog entry first : a name that cannot be stored (not ASCII)
+        # is refused before anything is touched
+        entryRecord = CatalogEntryRecord(
+            name=name.upper(),
+            extension=extension.upper(),
+            typeOfFile=typeOfFile,
+            typeOfData=typeOfData,
+            firstBlock=batBlocks[0].id,
+            usageOfLastSector=usageOfLastSector,
+        )
+        entryBytes = entryRecord.toBytes()
+
         # copy of data into disk image
         currentBlock = 0
         currentSector = 0
@@ -206,16 +218,6 @@ class FileSystemController:
         # update BAT
         self._bat = bat
 
-        firstBlock = batBlocks[0].id
-        entryRecord = CatalogEntryRecord(
-            name=name.upper(),
-            extension=extension.upper(),
-            typeOfFile=typeOfFile,
-            typeOfData=typeOfData,
-            firstBlock=batBlocks[0].id,
-            usageOfLastSector=usageOfLastSector,
-        )
-
         # Find a free catalog entry and write the new entry
         found = False
         for s in range(2, 16):  # catalog is from sector 2 to 15 of track 20
@@ -226,7 +228,7 @@ class FileSystemController:
                     entry.status == CatalogEntryStatus.NEVER_USED
                     or entry.status == CatalogEntryStatus.DELETED
                 ):
-                    catSector[start : start + 32] = entryRecord.toBytes()
+                    catSector[start : start + 32] = entryBytes
                     self._diskSide.tracks[20].sectors[s].dataOfPayload = catSector
                     found = True
                     break
